@@ -115,3 +115,31 @@ Definition run_pool (v : wvariant) (p : pool_cfg) (starts : list Z) (offs : list
   let sts := init_states starts durs in
   if p_per_instance p then tag_own v p offs O sts
   else run_shared v (instance_discard p) sts (map (fun o => hd 0 starts + o) offs).
+
+(* ---------------------------------------------------------------------------------------- *)
+(* The state every instance is left in when the schedule is exhausted (is_free = the instant the
+   instance is done: the length of the run). *)
+Fixpoint run_steps (v : wvariant) (d : bool) (s : istate) (toks : list Z) : list shot * istate :=
+  match toks with
+  | [] => ([], s)
+  | next :: r =>
+      let '(sh, s') := step_inst v d s next in
+      let '(l, s'') := run_steps v d s' r in (sh :: l, s'')
+  end.
+
+Fixpoint shared_final (v : wvariant) (d : bool) (sts : list istate) (toks : list Z) : list istate :=
+  match toks with
+  | [] => sts
+  | next :: r =>
+      match nth_error sts (argmin sts) with
+      | None => sts
+      | Some s => shared_final v d (update sts (argmin sts) (snd (step_inst v d s next))) r
+      end
+  end.
+
+Definition pool_final (v : wvariant) (p : pool_cfg) (starts : list Z) (offs : list Z) (durs : list (list Z))
+  : list istate :=
+  let sts := init_states starts durs in
+  if p_per_instance p then
+    map (fun s => snd (run_steps v (instance_discard p) s (map (fun o => is_free s + o) offs))) sts
+  else shared_final v (instance_discard p) sts (map (fun o => hd 0 starts + o) offs).
